@@ -1193,8 +1193,8 @@ func TestVerifC11Wide(t *testing.T) {
 
 // deep: the lifecycle core (genuine items of each kind, a same-hash variant, one invalid representative of each kind), deep.
 func TestVerifC11Deep(t *testing.T) {
-	cfg := c11Config{part: "deep", roots: []int64{5, 8}, maxDepth: 6, quickBudget: 100 * time.Second, thoroughBudget: 18 * time.Minute,
-		only: []string{"dv6/genuine", "dv8/genuine", "lc/lunatic", "lc/lunatic-4sig", "lc/equivocation", "dv6/bad-sig-b", "lc/lunatic/byz-extra"}}
+	cfg := c11Config{part: "deep", roots: []int64{4, 5, 8}, maxDepth: 6, quickBudget: 100 * time.Second, thoroughBudget: 18 * time.Minute,
+		only: []string{"dv5/genuine", "dv6/genuine", "dv8/genuine", "lc/lunatic", "lc/lunatic-4sig", "lc/equivocation", "dv6/bad-sig-b", "lc/lunatic/byz-extra"}}
 	if vr.Thorough() {
 		cfg.roots, cfg.maxDepth = []int64{4, 5, 6, 7, 8}, 8
 		cfg.only = append(cfg.only, "dv3/genuine", "dv6/validator-index")
